@@ -6,7 +6,7 @@ import WebAuthnModel.Generated.TpmAndroid
 import WebAuthnModel.Model.KeyDesc
 import WebAuthnModel.Model.Tpm2
 import WebAuthnModel.Model.San
-import WebAuthnModel.Model.Jws
+import WebAuthnModel.Model.JwsVerify
 /-
   The seven attestation statement verification procedures (attestation_statement*.go, certificate.go).
   Dependencies (x509, asn1, go-tpm, go-jose, crypto) are oracles; everything the repository itself decides —
@@ -356,10 +356,9 @@ def verifySafetyNetCompact (raw : Bytes) (c : Jws.Compact) (o : AttObj) (cdHash 
   match ← parseChain c.x5c with
   | none => pure none                                   -- ParseSigned fails: an x5c entry is not a certificate
   | some [] => pure none                                -- "no x5c header present in message"
-  | some ((leafDer, _) :: rest) =>
+  | some ((leafDer, leaf) :: rest) =>
     if !(← askBool (.x509Verify leafDer (rest.map (·.1)) safetyNetDNSName)) then pure none
-    else if !c.verifiable then pure none                -- Verify fails before looking at the signature ("crit", empty protected header)
-    else if !(← askBool (.jwsVerify raw leafDer)) then pure none
+    else if !(← Jws.signatureOK raw c leafDer leaf.key) then pure none   -- go-jose's Verify under the leaf certificate's key
     else
       match Jws.claims c.payload with
       | none => pure none
